@@ -239,6 +239,17 @@ func VerifH_usc() {
 	if swap {
 		wasReady = oldReady
 	}
+	// the report itself is the oracle: what gRPC said about a pool connection is what the balancer knows
+	if verifAnd(known, !isRepl) {
+		if s == connectivity.Shutdown {
+			verifAssert(!stillKnown, "C04: connection reported SHUTDOWN is still counted as a pool connection")
+		} else {
+			verifAssert(verifAnd(stillKnown, nowS == s), "C04,C09: the state reported for a pool connection was not recorded (published state, picker and round-robin waits go by the recorded state)")
+		}
+	}
+	if swap {
+		verifAssert(verifAnd(stillKnown, nowS == connectivity.Ready), "C04,C07: replacement that took over its channel is not recorded READY")
+	}
 	changed := verifAnd(poolReport, wasReady != isReady)
 	tfCross := verifAnd(cc.published, (gb.state == connectivity.TransientFailure) != oldAggTF)
 	verifAssert(verifImplies(changed, cc.pubCount > pre.pubCount), "C04: READY-ness change of a pool connection was not published")
@@ -276,6 +287,23 @@ func VerifH_usc() {
 	for x := 0; x < vK; x++ {
 		verifAssert(post.chanOf[x] == pre.chanOf[x], "C01: a state report moved a bound key to another channel")
 		verifAssert(post.bound[x] == pre.bound[x], "C01: a state report bound or unbound a key")
+	}
+	// C08: a stand-in is kept for as long as it stays READY and the key's own channel stays not READY:
+	// a state report drops a stand-in only when the stand-in itself left READY or the key's own channel
+	// became READY; it never creates one, and changes one only by moving it to the replacement at a swap
+	prevSc := sc
+	if swap {
+		prevSc = oldSc
+	}
+	for x := 0; x < vK; x++ {
+		removed := verifAnd(pre.hasFb[x], !post.hasFb[x])
+		changed := verifAnd(verifAnd(pre.hasFb[x], post.hasFb[x]), pre.fb[x] != post.fb[x])
+		added := verifAnd(!pre.hasFb[x], post.hasFb[x])
+		standInBroke := verifAnd(verifAnd(poolReport, !swap), verifAnd(pre.fb[x] == sc, verifAnd(wasReady, !isReady)))
+		homeRecovered := verifAnd(verifAnd(poolReport, pre.bound[x]), verifAnd(pre.boundSC[x] == prevSc, verifAnd(!wasReady, isReady)))
+		verifAssert(!added, "C08: a state report created a stand-in")
+		verifAssert(verifImplies(removed, verifOr(standInBroke, homeRecovered)), "C08: a state report dropped the stand-in of a key although the stand-in is still READY and the key's own channel is still not READY")
+		verifAssert(verifImplies(changed, verifAnd(swap, verifAnd(pre.fb[x] == oldSc, post.fb[x] == sc))), "C08: a state report replaced the stand-in of a key by another channel")
 	}
 	verifObserve("pubCount", uint64(cc.pubCount))
 	verifObserve("state", uint64(gb.state))
